@@ -31,6 +31,10 @@ theorem pyx_kernels_ok : (pyxKernels.all (·.2) && !pyxKernels.isEmpty) = true :
 /-- `temp_seed` is `get_state; seed(seed); try: yield; finally: set_state(state)` — what `tempSeed` mirrors -/
 theorem temp_seed_shape_eq : Gen.C05.tempSeedShape = Rng.tempSeedShape := by decide
 
+/-- `CreateSamplingMask` derives the seed from the file name only and passes `shape`/`seed` unchanged to both the
+mask and the ACS call; `integerize_seed` returns int seeds unchanged -/
+theorem plumbing_ok : plumbingOk plumbing = true := by decide
+
 /-- the universal theorems, for the code as it is -/
 theorem code_seeded_call_history_independent {σ Seed Req Val Out : Type} (O : Ops σ Seed Req Val)
     (prog : Prog Req Val Out) (hp : SitesIn table.length prog) (s : Seed) (i i' : Nat) (st st' : State σ Val) :
